@@ -39,10 +39,21 @@ def daemon_test(name, test_filter, cases, release=False, timeout=1500, extra_env
         return None, out[-4000:]
     return _read_out(cout, len(cases))
 
+def render_manifest(cdir):
+    """Cargo.toml.in -> Cargo.toml with @REPO@ replaced by the repository under
+    verification (VERIF_REPO, default /repo), so path dependencies follow it."""
+    tin = os.path.join(cdir, 'Cargo.toml.in')
+    if os.path.exists(tin):
+        new = open(tin).read().replace('@REPO@', REPO)
+        out = os.path.join(cdir, 'Cargo.toml')
+        if not os.path.exists(out) or open(out).read() != new:
+            open(out, 'w').write(new)
+
 def crate_bin(name, crate, args, cases, release=False, timeout=1500, extra_env=None):
     """Runs a harness crate under /verif/harness/<crate> (path deps on /repo crates)."""
     cin, cout = _write_cases(name, cases)
     cdir = os.path.join(VERIF, 'harness', crate)
+    render_manifest(cdir)
     lock = os.path.join(cdir, 'Cargo.lock')
     # keep the lock file in step with the repository's own pins
     if not os.path.exists(lock):
